@@ -348,6 +348,7 @@ class MakeValidOrientation(Contract):
             r = R(out.value)
             yield ("|result| <= 2pi", z3.And(r <= TWO_PI, r >= -TWO_PI))
             yield ("result == angle mod 2pi", angle_eq(r, a, 4))
+            yield ("identity on [-2pi, 2pi]", z3.Implies(z3.And(R(a) <= TWO_PI, R(a) >= -TWO_PI), r == R(a)))
 
 
 @register
